@@ -778,4 +778,57 @@ example : (run exZero 300 (startCall exZero {} 0)).now > 10 * exZero.cfg.maxExec
     (run exZero 300 (startCall exZero {} 0)).stack.getLast? = some .thrExec ∧
     (run exZero 300 (startCall exZero {} 0)).threads.length = 1 := by decide
 
+/-! ### `waitthread`: a purely positional exclusion does not suffice -/
+
+/-- an opcode that re-times the executing thread with zero delay: `wait` (delay 0 or small), `waitthread` -/
+def isYield : Op → Bool
+  | .wait _ => true
+  | .spawn _ true => true
+  | _ => false
+
+/-- position `i` of `code` lies inside a backward-jump cycle: some jump at a position `j ≥ i` targets `k ≤ i` -/
+def inCycle (code : List Op) (i : Nat) : Bool :=
+  (List.range code.length).any (fun j => decide (i ≤ j) &&
+    match code.getD j .done with
+    | .jmp k => decide (k ≤ i)
+    | .loopTest k => decide (k ≤ i)
+    | _ => false)
+
+/-- the natural weakening of `Nest`'s exclusion: yields are allowed outside backward-jump cycles -/
+def NoYieldInCycle (prog : Prog) : Bool :=
+  prog.all (fun code => (List.range code.length).all (fun i => !(isYield (code.getD i .done) && inCycle code i)))
+
+/-- `a: thread b; end` / `b: waitthread c; thread a; end` / `c: end` — no backward jump anywhere -/
+def exWtRec : Env :=
+  { cfg := { prot := true, maxExec := 50, maxDepth := 5 }, inc := fun _ => 1,
+    prog := [[.spawn 1 false, .done], [.spawn 2 true, .spawn 0 false, .done], [.done]] }
+
+set_option maxRecDepth 1000000 in
+/-- **"No `waitthread` inside a backward-jump cycle" is not enough.**  Full statement: `exWtRec` satisfies
+    `NoYieldInCycle` and `∀ k, halted (run exWtRec k (startCall exWtRec {} 0)) = false`: the re-timed `b` is resumed by
+    `ExecuteRunning` inside the same host call with a fresh deadline and spawns the next `a`, whose `b` is
+    re-timed in turn — a zero-delay self-resumption through the *label* graph, nesting never above 4, three
+    threads alive at any time.  *Proved* (`_partial`): the predicate holds, and the host call has not returned
+    after any `k ≤ 1000` steps; at step 1000 the clock shows 705 ms (limit 50 ms, protection on), no exception
+    was raised, 153 threads have been created, 3 are alive, the nesting counter is 4.  *Missing* for the ∀k
+    form: a cycle invariant over the ~40 shapes of one round with fresh thread ids.  Consequence: a decidable
+    class that admits `waitthread` must look at the call graph (e.g. no label that contains a `waitthread`
+    is reachable from the code after it); `Nest` excludes `waitthread` altogether. -/
+theorem C14_unwind_waitthread_recursion_never_returns_partial :
+    NoYieldInCycle exWtRec.prog = true ∧
+    (∀ k, k ≤ 1000 → halted (run exWtRec k (startCall exWtRec {} 0)) = false) ∧
+    (run exWtRec 1000 (startCall exWtRec {} 0)).now = 705 ∧ (run exWtRec 1000 (startCall exWtRec {} 0)).exc = none ∧
+    (run exWtRec 1000 (startCall exWtRec {} 0)).nextTid = 154 ∧ (run exWtRec 1000 (startCall exWtRec {} 0)).threads.length = 3 ∧
+    (run exWtRec 1000 (startCall exWtRec {} 0)).depth = 4 := by
+  have hK : halted (run exWtRec 1000 (startCall exWtRec {} 0)) = false := by decide
+  refine ⟨by decide, ?_, by decide, by decide, by decide, by decide, by decide⟩
+  intro k hk
+  cases hh : halted (run exWtRec k (startCall exWtRec {} 0)) with
+  | false => rfl
+  | true =>
+    have := run_of_halted exWtRec (1000 - k) _ hh
+    rw [← run_add, show k + (1000 - k) = 1000 by omega] at this
+    rw [this, hh] at hK
+    cases hK
+
 end Morfuse.Unwind
